@@ -27,6 +27,7 @@ unchanged.  This module folds such edits back, on the syntax tree, so that the r
   * or-default       `if a: x = a else: x = b` -> `x = a or b` (a pure).
   * unnested-else    `if a: EXIT else: REST` -> `if a: EXIT` + REST.
   * split-exit       `return A if c else B` -> `if c: return A` + `return B`; `if a or b: EXIT` -> `if a: EXIT` + `if b: EXIT`.
+  * unrolled-loop    a `for` over a short literal of pure elements is its body once per element.
   * idiom            `next(iter(x))` -> `list(x)[0]`; `itemgetter(k)` / `attrgetter('a')` -> the lambda; `dict.fromkeys`.
   * folded-closure   a function defined and only called inside a method is folded back at its calls.
   * renamed-symbol   a method / module function of the reference decomposition that is missing while an unknown one in
@@ -1434,6 +1435,7 @@ class Canonicaliser:
         """the rewritings that only look at one function."""
         self.closures_inline(u, fn)
         self.idioms(u, fn)
+        self.unroll_literal_loops(u, fn)
         self.sink_into_branches(u, fn)
         self.bulk_removals(u, fn)
         self.or_defaults(u, fn)
@@ -1467,6 +1469,42 @@ class Canonicaliser:
         for m in P.mods.values():
             ast.fix_missing_locations(m.tree)
         return {name: m.tree for name, m in P.mods.items()}
+
+    # ---------------------------------------------------------------- loops over a literal sequence
+    def unroll_literal_loops(self, unit, fn):
+        """`for a, b in ((x1, y1), (x2, y2)): BODY` (a literal of at most 6 pure elements, no break / continue / else)
+        is BODY once per element, with the targets replaced by the element."""
+        me = self
+
+        def do_list(stmts):
+            out = []
+            for st in stmts:
+                if not isinstance(st, (ast.FunctionDef, ast.AsyncFunctionDef, ast.ClassDef)):
+                    for owner, f in block_lists(st):
+                        setattr(owner, f, do_list(getattr(owner, f)))
+                if isinstance(st, ast.For) and not st.orelse and isinstance(st.iter, (ast.Tuple, ast.List)) and \
+                        1 <= len(st.iter.elts) <= 6 and not has_own(st, (ast.Break, ast.Continue)) and \
+                        all(pure(e) or (isinstance(e, (ast.Tuple, ast.List)) and all(pure(x) for x in e.elts))
+                            for e in st.iter.elts):
+                    tg = st.target
+                    names = [tg.id] if isinstance(tg, ast.Name) else \
+                        ([e.id for e in tg.elts] if isinstance(tg, (ast.Tuple, ast.List)) and
+                         all(isinstance(e, ast.Name) for e in tg.elts) else None)
+                    stored_in_body = {x.id for b in st.body for x in ast.walk(b)
+                                      if isinstance(x, ast.Name) and isinstance(x.ctx, ast.Store)}
+                    ok = names is not None and not (set(names) & stored_in_body)
+                    if ok and isinstance(tg, (ast.Tuple, ast.List)):
+                        ok = all(isinstance(e, (ast.Tuple, ast.List)) and len(e.elts) == len(names) for e in st.iter.elts)
+                    if ok:
+                        for e in st.iter.elts:
+                            m = {names[0]: e} if isinstance(tg, ast.Name) else dict(zip(names, e.elts))
+                            for b in st.body:
+                                out.append(Subst(m).visit(copy.deepcopy(b)))
+                        me.log.append(('unrolled-loop', unit.loc(st), unit.qual))
+                        continue
+                out.append(st)
+            return out
+        fn.body = do_list(fn.body)
 
     # ---------------------------------------------------------------- equivalent idioms
     def idioms(self, unit, fn):
